@@ -1,3 +1,4 @@
+import Desert.Lemmas.RoundTripFull
 import Desert.Lemmas.AltFormLemmas
 /-!
 # C12 — sequence encodings are container-independent and size-form-independent
@@ -29,13 +30,13 @@ theorem seq_layout (env : Env) (t : Ty) (items : Val) (st : EncSt) (b : Bytes) (
   · simp at he
 
 /-- what a sequence wrote can be read as an array of matching length -/
-theorem seq_read_as_array (env : Env) (henv : EnvV0 env) (t : Ty) (items : Val) (b : Bytes) (st' : EncSt) (fuel : Nat)
+theorem seq_read_as_array (env : Env) (henv : EnvWF env) (t : Ty) (items : Val) (b : Bytes) (st' : EncSt) (fuel : Nat)
     (he : enc env (.seq t) (.list items) [] = .ok (b, st')) (hu : items.utf8OK) (hd : items.depth + 1 < fuel) (tl : Bytes) :
     ∃ s', runAbs (dec env fuel (.array items.chainLength t)) (AbsSrc.new (b ++ tl))
         = .ok (.list (normItems env t items), s') ∧ s'.view = tl := by
   have he' : enc env (.array items.chainLength t) (.list items) [] = .ok (b, st') := by
     rw [array_bytes_eq_seq env _ t items [] rfl]; exact he
-  have := ((rt_all env henv (.list items)).1 _ [] b st' fuel he' (by simpa [Val.utf8OK] using hu) (by simp [StOK])
+  have := ((rt_wf env henv (.list items)).1 _ [] b st' fuel he' (by simpa [Val.utf8OK] using hu) (by simp [StOK])
     (by simpa [Val.depth] using hd) (AbsSrc.new (b ++ tl)) tl (WF_new _) (view_new _) rfl).1
   exact ⟨_, by simpa [normalize] using this, view_after_append (view_new _) _⟩
 
@@ -70,14 +71,14 @@ theorem array_wrong_length_rejected (env : Env) (t : Ty) (L : Nat) (n : Int) (hn
 
 /-- the unknown-length form (marker, flagged items, terminator) decodes to exactly the elements
 the known-length form denotes -/
-theorem unknown_form_equiv (env : Env) (henv : EnvV0 env) (t : Ty) (items : Val) (bk bu : Bytes) (stk stu : EncSt)
+theorem unknown_form_equiv (env : Env) (henv : EnvWF env) (t : Ty) (items : Val) (bk bu : Bytes) (stk stu : EncSt)
     (fuel : Nat) (hk : enc env (.seq t) (.list items) [] = .ok (bk, stk))
     (hu' : encSeqUnknown env t items [] = .ok (bu, stu)) (hu : items.utf8OK)
     (hd : items.depth + 1 < fuel) (hl : items.chainLength < fuel) (tl : Bytes) :
     ∃ s1 s2, runAbs (dec env fuel (.seq t)) (AbsSrc.new (bk ++ tl)) = .ok (.list (normItems env t items), s1) ∧
              runAbs (dec env fuel (.seq t)) (AbsSrc.new (bu ++ tl)) = .ok (.list (normItems env t items), s2) ∧
              s1.view = tl ∧ s2.view = tl := by
-  have h1 := ((rt_all env henv (.list items)).1 _ [] bk stk fuel hk (by simpa [Val.utf8OK] using hu) (by simp [StOK])
+  have h1 := ((rt_wf env henv (.list items)).1 _ [] bk stk fuel hk (by simpa [Val.utf8OK] using hu) (by simp [StOK])
     (by simpa [Val.depth] using hd) (AbsSrc.new (bk ++ tl)) tl (WF_new _) (view_new _) rfl).1
   have h2 := rt_seq_unknown env henv t items [] bu stu fuel hu' hu (by simp [StOK]) (by omega) hl
     (AbsSrc.new (bu ++ tl)) tl (WF_new _) (view_new _) rfl
